@@ -219,6 +219,13 @@ ZEV :: Ze.P 3
 Zx :: externblob {
     a: int,
 }
+Zg :: blob(*T) {
+    g: *T,
+}
+Zo :: enum(*T)
+    Som *T,
+    Non,
+end
 """
 
 
@@ -578,9 +585,29 @@ class Gen:
         self.scopes[-1].append(Var(name, t, not const, is_global))
         return [line]
 
+    def define_generic(self, ctx, ind):
+        """a variable of a GENERIC blob / enum type, annotated with the bare type name: every mention of the type
+        must be a fresh instance (two such variables at different element types in one program)"""
+        r = self.r
+        name = self.fresh("v")
+        et = r.choice(BASE)
+        val = self.expr(et, ctx, 1, "field-init")
+        i = self.m()
+        if r.random() < 0.5:
+            tyname, init = "Zg", "(Zg { g: %s })" % val
+        else:
+            tyname, init = "Zo", "(Zo.Som %s)" % val
+        self.count("generic-annotation")
+        line = "%s%s«A%d|var;n»: %s :«|» ::«/A%d» %s" % (ind, name, i, tyname, i, init)
+        if r.random() < 0.5:
+            line = "%s%s«A%d|var;n;un» ::«|»: %s :«/A%d» %s" % (ind, name, i, tyname, i, init)
+        return [line]
+
     def stmt(self, ctx, ind, rec=None):
         r = self.r
         x = r.random()
+        if x < 0.05:
+            return self.define_generic(ctx, ind)
         if x < 0.30:
             return self.define(ctx, ind)
         if x < 0.42 and not ctx.pure:
@@ -709,6 +736,9 @@ class Gen:
         sctx = Ctx(ret=VOID, path="fn", depth=1)
         self.scopes.append([])
         body = self.block(sctx, "    ", r.randint(1, 3))
+        i1, i2 = self.m(), self.m()
+        body.append("    zga«A%d|var;n»: Zg :«|» ::«/A%d» (Zg { g: 1 })" % (i1, i1))
+        body.append("    zgb«A%d|var;n»: Zg :«|» ::«/A%d» (Zg { g: \"s\" })" % (i2, i2))
         for f in self.funcs:
             if r.random() < 0.8:
                 body.append("    " + self.E("unused", f.ty[2], self.call(f, sctx, 1), sctx) if f.ty[2] != VOID else "    " + self.call(f, sctx, 1))
